@@ -9,6 +9,7 @@ import DM.Drv.RS
 import DM.Spec.Build
 import DM.Drv.Api
 import DM.Drv.Prune
+import DM.Drv.EncRun
 open DM.Drv
 
 def dispatch (args : List String) : String :=
@@ -40,6 +41,9 @@ def dispatch (args : List String) : String :=
   | some r => r
   | none =>
   match pruneOp args with
+  | some r => r
+  | none =>
+  match encRunOp args with
   | some r => r
   | none => "bad-op"
 
